@@ -7,8 +7,10 @@
 (* The deflate compressor is abstract: for a content x it may return any of Candidates(x) - an   *)
 (* opaque token much shorter than x, one slightly shorter, or the transparent stored-block        *)
 (* stream (longer than x); the ghost field `orc` records "inflates to x".                        *)
-(* Deviation switches as in Codecs (DESIGN 2.9): run with FALSE = as repaired (no counter-        *)
-(* example), TRUE = as the code is (counter-example = the known finding).                        *)
+(* Deviation switches as in Codecs (DESIGN 2.9): all FALSE = the code as it is since the fix:     *)
+(* commits (no counter-example); one switch TRUE = the repaired defect seeded back into the       *)
+(* design (counter-example exactly on the class of the former finding: a negative control of the   *)
+(* contract invariants).                                                                          *)
 EXTENDS StreamOps, Json
 
 CONSTANTS MaxSteps, DevAvg, DevArr, DevStale
@@ -37,8 +39,8 @@ Starts ==
      S0(<<Flate>>, "dict", <<P13>>, ZStored(PngEncode(<<1, 2>>, 1, 2, <<3>>), 65535), TRUE),
      S0(<<Flate>>, "array", <<P12>>, ZStored(PngEncode(<<1, 2>>, 1, 2, <<2>>), 65535), TRUE),
      S0(<<A85, Lzw>>, "none", <<>>, A85Encode(LzwEncode(<<3, 1, 2>>, 1, 4094), TRUE), TRUE),
-     S0(<<"DCTDecode">>, "none", <<>>, <<255, 216>>, TRUE)} \cup
-    (IF DevStale THEN {S0(<<>>, "dict", <<P12>>, Compressible, TRUE)} ELSE {})
+     S0(<<"DCTDecode">>, "none", <<>>, <<255, 216>>, TRUE),
+     S0(<<>>, "dict", <<P12>>, Compressible, TRUE)}          \* no filter, left-over DecodeParms (class compress.stale-decodeparms)
 
 NoOp == [op |-> "init", i |-> 0, pre |-> <<>>, arg |-> <<>>]
 
@@ -56,10 +58,10 @@ Step(op, i, arg, new) ==
 SetContent == \E i \in 1..2, b \in Contents : Step("set_content", i, b, [ss EXCEPT ![i] = ImplSetContent(ss[i], b)])
 SetPlainContent == \E i \in 1..2, b \in Contents : Step("set_plain_content", i, b, [ss EXCEPT ![i] = ImplSetPlain(ss[i], b)])
 Compress == \E i \in 1..2 : \E c \in Candidates(ss[i].content) :
-                Step("compress", i, <<>>, [ss EXCEPT ![i] = ImplCompress(ss[i], c)])
+                Step("compress", i, <<>>, [ss EXCEPT ![i] = ImplCompress(ss[i], c, DevStale)])
 Decompress == \E i \in 1..2 : Step("decompress", i, <<>>, [ss EXCEPT ![i] = ImplDecompress(ss[i], DevAvg, DevArr, FALSE)])
 DocCompress == \E c1 \in Candidates(ss[1].content), c2 \in Candidates(ss[2].content) :
-                Step("doc_compress", 0, <<>>, ImplDocCompress(ss, <<c1, c2>>))
+                Step("doc_compress", 0, <<>>, ImplDocCompress(ss, <<c1, c2>>, DevStale))
 DocDecompress == Step("doc_decompress", 0, <<>>, ImplDocDecompress(ss, DevAvg, DevArr, FALSE))
 
 Next == SetContent \/ SetPlainContent \/ Compress \/ Decompress \/ DocCompress \/ DocDecompress
@@ -82,8 +84,8 @@ Good4(i) ==
            [] OTHER -> TRUE
 StepOK == \A i \in 1..2 : Good4(i)
 
-\* "as the code is" (a deviation switch on): the contract is broken - reported as a DEVIATION line -
-\* but only on inputs of the listed class
+\* a repaired defect seeded back (one deviation switch on): the contract is broken - reported as a
+\* DEVIATION line - but only on inputs of the class of that former finding
 StepOKModKnown ==
     \A i \in 1..2 : ~Good4(i) =>
         /\ KnownClasses(last.pre[i], last.op) # {}
